@@ -21,6 +21,7 @@ import (
 	"fmt"
 	"log"
 	"os"
+	"reflect"
 	"time"
 
 	"github.com/Comcast/sheens/core"
@@ -130,6 +131,43 @@ func copyProps(x interface{}) interface{} {
 			acc[i] = copyProps(v)
 		}
 		return acc
+	default:
+		return copyTyped(x)
+	}
+}
+
+// copyTyped does for maps and slices of other types (map[string]string,
+// []string, ...) what copyProps does for those of the JSON decoder: a
+// Go host can put such values in the step properties, too, and a
+// script sees them as objects and arrays that it can write to.
+func copyTyped(x interface{}) interface{} {
+	v := reflect.ValueOf(x)
+	elem := func(e reflect.Value, t reflect.Type) reflect.Value {
+		c := reflect.ValueOf(copyProps(e.Interface()))
+		if !c.IsValid() {
+			return reflect.Zero(t)
+		}
+		return c
+	}
+	switch v.Kind() {
+	case reflect.Map:
+		if v.IsNil() {
+			return x
+		}
+		acc := reflect.MakeMapWithSize(v.Type(), v.Len())
+		for iter := v.MapRange(); iter.Next(); {
+			acc.SetMapIndex(iter.Key(), elem(iter.Value(), v.Type().Elem()))
+		}
+		return acc.Interface()
+	case reflect.Slice:
+		if v.IsNil() {
+			return x
+		}
+		acc := reflect.MakeSlice(v.Type(), v.Len(), v.Len())
+		for i := 0; i < v.Len(); i++ {
+			acc.Index(i).Set(elem(v.Index(i), v.Type().Elem()))
+		}
+		return acc.Interface()
 	default:
 		return x
 	}
